@@ -1,5 +1,5 @@
 (** src/lib.rs : derive_input_handler *)
-From Educe.Model Require Export Expand_PartialEq Expand_Eq Expand_Hash Expand_Clone Expand_Copy Expand_Debug Expand_PartialOrd Expand_Ord.
+From Educe.Model Require Export Expand_PartialEq Expand_Eq Expand_Hash Expand_Clone Expand_Copy Expand_Debug Expand_PartialOrd Expand_Ord Expand_Default.
 
 Definition tmap := list (trait * list meta).
 
@@ -47,7 +47,7 @@ Definition handlers : list (trait * handler) :=
    (TPartialOrd, expand_partial_ord);
    (TOrd, expand_ord);
    (THash, expand_hash);
-   (TDefault, not_modelled "Default");
+   (TDefault, expand_default);
    (TDeref, not_modelled "Deref");
    (TDerefMut, not_modelled "DerefMut")].
 
